@@ -19,7 +19,7 @@
    generated identifiers) is pushed through the real cff in base, source-map and
    -auto-instrument modes and type-checked without the cff tag; probes F7/F8 are known
    findings. *)
-From CffVerif Require Import BuildTagModel DirectiveLeftProofs AliasModel AliasProofs.
+From CffVerif Require Import BuildTagModel DirectiveLeftProofs AliasModel AliasProofs ScopeModel ScopeProofs.
 
 Theorem C13_directive_count :
   forall src gens last,
@@ -51,6 +51,21 @@ Example C13_nested_refuted :
   let g := {| dpos := 1; dend := 6; dtext := gen_text [[SCode 90]; [SCode 91]] hoisted |} in
   dir_count (splice src 0 [g]) = 1.
 Proof. vm_compute. reflexivity. Qed.
+
+(* package references written by the templates (time, debug, context, the cff import) reach
+   the file's import unless the closure or the enclosing function declares that name
+   (C13_template_reference); a local of the enclosing function with that name shadows it:
+   C13_shadow_refuted is the model-level witness of known finding F7 (probe ShadowTime) *)
+Theorem C13_template_reference :
+  forall body locals file pkg, pkg <> id_err -> ~ In pkg body -> ~ In pkg locals -> In pkg file ->
+    template_ref body locals file pkg = BFileLevel.
+Proof. exact template_ref_ok. Qed.
+Print Assumptions C13_template_reference.
+
+Theorem C13_shadow_refuted :
+  exists body locals file pkg, In pkg file /\ template_ref body locals file pkg = BUserLocal.
+Proof. exact shadow_refuted. Qed.
+Print Assumptions C13_shadow_refuted.
 
 Theorem C13_import_names :
   forall init reqs names s,
